@@ -330,5 +330,19 @@ def _anc(repo, n):
         p = repo.parent(p)
 
 
+def r12_7(ctx):
+    """R12.7 (a) a failure while flagging aborts the sync before auto.conf is written: no function on the sync path catches
+    an OS error and carries on (a swallowed failure of one touch followed by the auto.conf write loses that trigger for
+    good - the rerun compares against the already updated auto.conf); (b) the option name read from the old auto.conf is
+    used as it was written there: a name that no longer exists is flagged under its own name, never re-mapped to another
+    option (which would then be judged unchanged)."""
+    from .common import no_swallowed_errors, not_rebound
+    no_swallowed_errors(ctx, [f"{CORE}:Kconfig.sync_deps", f"{CORE}:Kconfig._load_old_vals", f"{CORE}:Kconfig._write_old_vals",
+                              f"{CORE}:_touch_dep_file", f"{CORE}:Kconfig._write_if_changed"],
+                        ("OSError",), "the sync goes on to write auto.conf although an option's trigger file was not touched")
+    not_rebound(ctx, f"{CORE}:Kconfig._load_old_vals", ["name"],
+                "an option that disappeared must be flagged under the name auto.conf recorded")
+
+
 def rules():
-    return [("R12.1", r12_1, 6), ("R12.2", r12_2, 2), ("R12.3", r12_3, 1), ("R12.4", r12_4, 6), ("R12.5", r12_5, 4), ("R12.6", r12_6, 4)]
+    return [("R12.7", r12_7, 2), ("R12.1", r12_1, 6), ("R12.2", r12_2, 2), ("R12.3", r12_3, 1), ("R12.4", r12_4, 6), ("R12.5", r12_5, 4), ("R12.6", r12_6, 4)]
